@@ -48,6 +48,15 @@ Streams (all randomness from run.seed; case counts fixed per tier):
                 the graph captured) and `mixF` bit for bit; clause oracle with its own bookkeeping: in variable mode
                 the factor IS a tf.Variable after every operation (also judged in A, B, C), and a compiled call
                 returns s + f*(q - s) with the LAST value written.
+  H  history    the values returned by ALL calls of a history on ONE object: constructor factor {0 in four argument
+                forms, 1, 1/2} x python / Variable storage x five ways of being built (first call, build(False),
+                build(True), first call inside a QActivation layer, update before any use), then updates to and away
+                from the boundary factors 0 and 1 (numbers, tf.Variables), a call after each (rank 1 / rank 2 tensor,
+                directly or through QActivation; another object of the class used in between); every knob-bearing class,
+                every return form, plus an auto-scaled quantized_linear.  Against `QState.outs` bit for bit; clause
+                oracle with its own books on EVERY call: output = s + f*(q - s) with f the last value written before
+                that call, and bit-identical to a fresh object constructed with that constant (nothing derived from
+                the factor — an identity flag, a cached 1 - f, a skipped branch — may outlive the call).
 """
 import itertools
 import fractions
@@ -2721,7 +2730,12 @@ def run(run: core.Run, tier: str):
       "update(1), update(0), update(<tf.Variable 3/4>), each followed by a call through ONE tf.function; 4 (40 "
       "thorough) seeded histories per class over updates / calls / compiled calls / build(T/F) / use_variables flips; 2 "
       "python-mode histories per class; 12 Keras models (QActivation, input shape known or not) x QNoiseScheduler step "
-      "schedules with a compiled training step; non-trivial = distinct (class, form, route, factor, history).")
+      "schedules with a compiled training step; non-trivial = distinct (class, form, route, factor, history). "
+      "H: 6 classes x return form (+ auto-scaled quantized_linear) x constructor factor {0, 1, 1/2} x storage x 5 ways of "
+      "being built x 3 (thorough 8) of 8 update sequences over {0, 1, 1/4, 0.3, 1/2} (rotated by the seed), a call after "
+      "every step; non-trivial = distinct (class, constructor arguments, history). Quick budgets trimmed when H was added "
+      "(all draws still made, so the other streams see the same random state): B executes 200 of its 250 seeded sequences "
+      "per class, C 720 of 810 seeded histories, E 30 of 40 seeded interleavings per class.")
   stream_mix(run, tier, Q, tf, rng)
   stream_storage(run, tier, Q, tf, rng)
   stream_sched(run, tier, Q, tf, rng)
